@@ -329,12 +329,16 @@ class Models:
         A(r'^<std::str::Split<\'_, char> as Iterator>::next$', self.m_split_next)
         A(r'^<str as std::ops::Index<.*>>::index$', self.m_index_range)
         A(r'^<\[u8\] as std::ops::Index<.*>>::index$', self.m_index_range)
+        A(r'^core::slice::<impl \[u8\]>::split::<', lambda ex, c, a: Iter('splitp', self.any_slice(ex, a[0]), 0, dict(pred=a[1], done=False)))
+        A(r'^<(?:std|core)::slice::Split<.*> as Iterator>::collect::<Vec<', self.m_split_collect)
+        A(r'^Vec::<.*>::len$', lambda ex, c, a: usize(len(ex.deref(a[0]).items)))
+        A(r'^<Vec<.*> as Deref>::deref$', lambda ex, c, a: Slice(list(ex.deref(a[0]).items), 0, len(ex.deref(a[0]).items), False))
         A(r'^core::slice::<impl \[.*\]>::iter$', lambda ex, c, a: Iter('slice', self.any_slice(ex, a[0]), 0))
-        A(r'^<std::slice::Iter<\'_, .*> as Iterator>::position::<', self.m_iter_position)
-        A(r'^<std::slice::Iter<\'_, .*> as Iterator>::all::<', self.m_iter_all)
-        A(r'^<std::slice::Iter<\'_, .*> as Iterator>::any::<', self.m_iter_any)
-        A(r'^<std::slice::Iter<\'_, .*> as Iterator>::find::<', self.m_iter_find)
-        A(r'^<std::slice::Iter<\'_, .*> as Iterator>::next$', self.m_iter_next)
+        A(r'^<(?:std|core)::slice::Iter<\'_, .*> as Iterator>::position::<', self.m_iter_position)
+        A(r'^<(?:std|core)::slice::Iter<\'_, .*> as Iterator>::all::<', self.m_iter_all)
+        A(r'^<(?:std|core)::slice::Iter<\'_, .*> as Iterator>::any::<', self.m_iter_any)
+        A(r'^<(?:std|core)::slice::Iter<\'_, .*> as Iterator>::find::<', self.m_iter_find)
+        A(r'^<(?:std|core)::slice::Iter<\'_, .*> as Iterator>::next$', self.m_iter_next)
         A(r'^core::num::<impl u8>::is_ascii_whitespace$', lambda ex, c, a: z3.simplify(is_ws(ex.deref(a[0]).e)))
         A(r'^core::num::<impl u8>::is_ascii_digit$', lambda ex, c, a: z3.simplify(is_digit(ex.deref(a[0]).e)))
         A(r'^core::num::<impl u8>::is_ascii_hexdigit$', lambda ex, c, a: z3.simplify(is_hexdigit(ex.deref(a[0]).e)))
@@ -582,6 +586,18 @@ class Models:
             if not is_all and r:
                 return True
         return is_all
+
+    def m_split_collect(self, ex, c, a):
+        it = a[0]
+        sl = it.slice
+        parts = []
+        start = 0
+        for i in range(sl.len):
+            if ex.decide(ex.call_closure(it.extra['pred'], [ElemRef(sl, i)])):
+                parts.append(sl.sub(start, i))
+                start = i + 1
+        parts.append(sl.sub(start, sl.len))
+        return VecV(parts)
 
     def m_iter_find(self, ex, c, a):
         it = ex.deref(a[0])
